@@ -101,7 +101,8 @@ def witness_case(ctx, w):
 
 
 def run(ctx):
-    names = ["p", "pre", "textarea", "script", "div", "b", "style", "PRE", "xmp", "br"]
+    names = ["p", "pre", "textarea", "script", "div", "b", "style", "PRE", "xmp", "br", "title", "noscript", "iframe", "noembed",
+             "noframes", "listing", "plaintext", "code", "td", "svg", "option", "TEXTAREA", "head", "select"]
     reqs, reals = [], []
     for i in range(ctx.scale(2500, 50000)):
         if i % 2:
